@@ -62,8 +62,10 @@ func RunScenario(name string) []string {
 		}
 	case "adapters":
 		s := c17.New(c17.Config{})
-		for _, op := range []string{"eoa u2 delegate v0 5", "eoa u2 delegate v1 3", "fwd u2 delegate v0 7", "eoa u2 redelegate v0 v1 1", "eoa u2 undelegate v1 2", "eoa u2 withdraw v0", "fake u2 delegate v0 5", "eoa u2 delegate vunknown 1",
-			"eoa u2 vote 1 1", "eoa u2 wvote 1 1:60,3:40", "fwd u2 vote 1 2", "eoa u2 vote 7 1", "fwd u2 delegate v0 5000", "advance"} {
+		// (votes first: the proposal's voting period is 40 s and every operation is a block of 5 s)
+		for _, op := range []string{"eoa u2 vote 1 1", "eoa u2 wvote 1 1:60,3:40", "fwd u2 vote 1 2", "fwd3 u2 wvote 1 2:30,1:30,4:40 | delegate v1 1", "eoa u2 vote 7 1",
+			"eoa u2 delegate v0 5", "eoa u2 delegate v1 3", "fwd u2 delegate v0 7", "eoa u2 redelegate v0 v1 1", "eoa u2 undelegate v1 2", "eoa u2 withdraw v0", "fake u2 delegate v0 5", "eoa u2 delegate vunknown 1",
+			"fwd u2 delegate v0 5000", "advance"} {
 			s.Apply(op)
 		}
 	case "clients":
